@@ -33,6 +33,7 @@ type Oblig struct {
 	ExpectSat bool // vacuity check: "sat" is the good answer
 	Structural bool // decided by a CFG / use-def analysis, not SMT
 	Detail  string
+	Raw     string // complete SMT-LIB query (spec-level lemmas)
 }
 
 type Heap map[string]string
@@ -69,6 +70,16 @@ type Unit struct {
 	globalsAssumed bool
 	pendingSorts map[string]string
 	prop string
+	splits []splitInfo
+}
+
+type splitInfo struct {
+	term   string
+	sort   string
+	lo, hi int
+	from   int // index into u.obls: obligations from here on are split
+	reach  string
+	text   string
 }
 
 func (e *Engine) newUnit(fn *ssa.Function, ct *Contract, name string) *Unit {
@@ -188,6 +199,9 @@ func (u *Unit) unsupportedAt(reach, msg string) {
 
 // query renders the SMT-LIB text for an obligation.
 func (o *Oblig) query(timeoutHint int) string {
+	if o.Raw != "" {
+		return o.Raw
+	}
 	u := o.Unit
 	var b strings.Builder
 	b.WriteString("; obligation " + o.Name + "\n; clause: " + strings.ReplaceAll(o.Clause, "\n", " ") + "\n")
